@@ -342,6 +342,49 @@ pub fn overlapping_connections(rep: &Report) -> u64 {
     n
 }
 
+
+/// Accumulation on one set of filters: a player joins through eu.example (a scoped rule applies), then players join
+/// through 1 100 other host names, then through eu.example, us.example and a host no rule names again. Which rules
+/// apply depends on the host name of *this* connection only.
+pub fn many_hostnames(rep: &Report) -> u64 {
+    use passage_adapters::filter::FilterAdapter;
+    let mut n = 0u64;
+    run_local(async {
+        let rule = |host: &str, region: &str| cfg::OptionFilterAdapter {
+            hostname: Some(host.to_string()),
+            filter: cfg::FilterAdapter::Meta(cfg::MetaFilter { rules: vec![cfg::FilterRule { key: "region".into(), operation: cfg::FilterOperation::Equals(region.into()) }] }),
+        };
+        let block = cfg::OptionFilterAdapter { hostname: Some("^eu\\.".to_string()), filter: cfg::FilterAdapter::PlayerBlock(cfg::PlayerBlockFilter { usernames: Some(vec!["Blocked_One".into()]), username: None, ids: None }) };
+        let filters = DynFilterAdapters::from_config(vec![rule("^eu\\.", "eu"), rule("^us\\.", "us"), block]).await.unwrap_or_else(|e| common::machinery(&format!("from_config(filter): {e}")));
+        let t = |id: &str, addr: &str, region: &str| Target { identifier: id.into(), address: addr.parse().unwrap(), meta: [("region".to_string(), region.to_string())].into_iter().collect() };
+        let all = vec![t("us-1", "10.0.1.1:25565", "us"), t("eu-1", "10.0.2.1:25565", "eu"), t("ap-1", "10.0.3.1:25565", "ap")];
+        let client: SocketAddr = "198.51.100.9:40000".parse().unwrap();
+        let uuid = uuid::Uuid::from_u128(9);
+        let mut hosts: Vec<(String, &str, Vec<&str>)> = vec![("eu.example".into(), "Player", vec!["eu-1"]), ("us.example".into(), "Player", vec!["us-1"]), ("eu.example".into(), "Blocked_One", vec![])];
+        for i in 0..1_100 {
+            hosts.push((format!("h{i}.example"), "Player", vec!["us-1", "eu-1", "ap-1"]));
+        }
+        for _ in 0..2 {
+            hosts.extend([("eu.example".to_string(), "Player", vec!["eu-1"]), ("us.example".into(), "Player", vec!["us-1"]), ("eu.example".into(), "Blocked_One", vec![]), ("h3.example".into(), "Blocked_One", vec!["us-1", "eu-1", "ap-1"]), ("h1023.example".into(), "Player", vec!["us-1", "eu-1", "ap-1"])]);
+        }
+        for (i, (host, player, want)) in hosts.iter().enumerate() {
+            n += 1;
+            let got = filters.filter(&client, (host, 25565), 769, (player, &uuid), all.clone()).await;
+            let ids: Option<Vec<String>> = got.as_ref().ok().map(|v| v.iter().map(|t| t.identifier.clone()).collect());
+            if ids.as_deref() != Some(&want.iter().map(|s| s.to_string()).collect::<Vec<_>>()[..]) {
+                rep.violation(Violation {
+                    key: "connection:rules-of-another-host-applied".into(),
+                    text: format!("call #{i} on one set of filters (after {} other host names): player {player} joining through {host} is left with {ids:?}; the rules for that host leave {want:?}", i.saturating_sub(3)),
+                    replay: json!({"accumulation": "many-hostnames", "call": i}),
+                    weight: 5,
+                });
+                break;
+            }
+        }
+    });
+    n
+}
+
 pub fn run(cli: Cli) -> ! {
     let rep = Report::new("C18", cli.tier, "exploration");
     if cli.replay.is_some() {
@@ -349,6 +392,8 @@ pub fn run(cli: Cli) -> ! {
     }
     enumk::c18::core(&rep, cli.tier.thorough());
     let n = whole_connections(&rep) + renamed_connections(&rep) + overlapping_connections(&rep);
+    let many = many_hostnames(&rep);
+    rep.set("filter_calls_over_1100_host_names_on_one_instance", json!(many));
     rep.require("whole connections through the built-in filters", n, 10);
     rep.set("whole_connections_over_tcp", json!(n));
     rep.assume("whole connections: two host-scoped metadata filters and a host-scoped block list built with DynFilterAdapters::from_config, the default strategy, two discovered targets; 'the host name the player connected with' is the handshake's");
